@@ -311,6 +311,8 @@ pub struct BufSys {
     pub window: usize,
     pub dict: Vec<u8>,
     pub max_len: usize,
+    /// reduced operand menu (Miri tier)
+    pub reduced: bool,
 }
 
 pub struct DLive {
@@ -396,10 +398,10 @@ impl System for BufSys {
     fn enabled(&self, l: &DLive) -> Vec<DOp> {
         let held = Self::held(l);
         let mut ops = vec![];
-        for n in [0usize, 1, 2, 3, 5, 16, 17, 33] {
+        for n in if self.reduced { vec![0usize, 1, 3] } else { vec![0usize, 1, 2, 3, 5, 16, 17, 33] } {
             ops.push(DOp::Push(n));
         }
-        for n in [1usize, 17] {
+        for n in if self.reduced { vec![2usize] } else { vec![1usize, 17] } {
             ops.push(DOp::Fill(n));
             ops.push(DOp::FromReader(n));
         }
@@ -410,7 +412,7 @@ impl System for BufSys {
         let legal_dict_state = l.drained == 0 && l.produced.len() <= self.window;
         let max_off = held + dict_reach + if legal_dict_state { 1 } else { 0 };
         for off in 1..=max_off {
-            let mut lens = vec![1usize, 2, 3, 15, 16, 17, 31, 32, 33, off, off + 1, 2 * off + 1];
+            let mut lens = if self.reduced { vec![1usize, 17, off + 1] } else { vec![1usize, 2, 3, 15, 16, 17, 31, 32, 33, off, off + 1, 2 * off + 1] };
             if off > 1 {
                 lens.push(off - 1);
             }
@@ -422,11 +424,12 @@ impl System for BufSys {
         }
         ops.push(DOp::DrainToWindow);
         ops.push(DOp::DrainAll);
-        for n in [0usize, 1, 3, 100] {
+        for n in if self.reduced { vec![3usize] } else { vec![0usize, 1, 3, 100] } {
             ops.push(DOp::Read(n));
             ops.push(DOp::ReadAll(n));
         }
-        for (per, budget, kind) in [(usize::MAX, usize::MAX, 0u8), (1, usize::MAX, 0), (usize::MAX, 0, 0), (2, 3, 0), (usize::MAX, 0, 1), (3, 4, 1)] {
+        let sinks: Vec<(usize, usize, u8)> = if self.reduced { vec![(2, 3, 0), (3, 4, 1)] } else { vec![(usize::MAX, usize::MAX, 0u8), (1, usize::MAX, 0), (usize::MAX, 0, 0), (2, 3, 0), (usize::MAX, 0, 1), (3, 4, 1)] };
+        for (per, budget, kind) in sinks {
             ops.push(DOp::WindowWriter(per, budget, kind));
             ops.push(DOp::AllWriter(per, budget, kind));
         }
@@ -634,7 +637,58 @@ pub fn dump_jobs(path: &str, max_cap: usize, boundary_only: bool) -> i32 {
         }
     }
     println!("dumped {n} jobs over {} states (cap <= {max_cap}, boundary_only = {boundary_only}) to {path}", seen.len());
+    // the DecodeBuffer system (the two unsafe call sites live in decode_buffer.rs): reduced menu, small bound
+    let mut nb = 0u64;
+    for (window, dict) in [(4usize, vec![201u8, 202, 203, 204, 205])] {
+        let bsys = BufSys { window, dict: dict.clone(), max_len: 5, reduced: true };
+        let mut seen: std::collections::HashSet<<BufSys as System>::Key> = Default::default();
+        let mut queue: VecDeque<Vec<DOp>> = VecDeque::new();
+        let root = bsys.fresh();
+        seen.insert(bsys.key(&root));
+        drop(root);
+        queue.push_back(vec![]);
+        while let Some(h) = queue.pop_front() {
+            let base = xplore::replay(&bsys, &h).ok().expect("history replays");
+            if !bsys.expand(&base) {
+                continue;
+            }
+            for op in bsys.enabled(&base) {
+                let mut l = xplore::replay(&bsys, &h).ok().expect("history replays");
+                if bsys.step(&mut l, &op).is_err() {
+                    continue;
+                }
+                let mut line: Vec<String> = h.iter().map(dop_job).collect();
+                line.push(dop_job(&op));
+                writeln!(out, "B{window},{}|{}", dict.len(), line.join(";")).unwrap();
+                nb += 1;
+                let k = bsys.key(&l);
+                if seen.insert(k) {
+                    let mut h2 = h.clone();
+                    h2.push(op);
+                    queue.push_back(h2);
+                }
+            }
+        }
+    }
+    println!("dumped {nb} DecodeBuffer jobs");
     0
+}
+
+fn dop_job(op: &DOp) -> String {
+    let big = |n: &usize| if *n == usize::MAX { 999_999 } else { *n };
+    match op {
+        DOp::Push(n) => format!("p{n}"),
+        DOp::Fill(n) => format!("l{n}"),
+        DOp::FromReader(n) => format!("q{n}"),
+        DOp::Repeat(o, m) => format!("t{o},{m}"),
+        DOp::DrainToWindow => "a".into(),
+        DOp::DrainAll => "x".into(),
+        DOp::Read(n) => format!("R{n}"),
+        DOp::ReadAll(n) => format!("A{n}"),
+        DOp::WindowWriter(p, b, k) => format!("W{},{},{k}", big(p), big(b)),
+        DOp::AllWriter(p, b, k) => format!("V{},{},{k}", big(p), big(b)),
+        DOp::Reset => "z".into(),
+    }
 }
 
 pub fn main(tier: Tier, replay: Option<Value>) -> i32 {
@@ -708,7 +762,7 @@ pub fn main(tier: Tier, replay: Option<Value>) -> i32 {
     let mut btrans = 0u64;
     for w in &windows {
         for d in &dicts {
-            let sys = BufSys { window: *w, dict: d.clone(), max_len };
+            let sys = BufSys { window: *w, dict: d.clone(), max_len, reduced: false };
             let (st, found) = xplore::bfs(&sys, &caps);
             println!("C04 decode-buffer: window={w} dict={} states={} transitions={} depth={} exhausted={} {:.1}s {:?}", d.len(), st.states, st.transitions, st.max_depth, st.exhausted, st.wall_s, st.cap_hit);
             if let Some(n) = &st.nondeterminism {
@@ -750,7 +804,7 @@ fn do_replay(r: &Value) -> i32 {
             }
             _ => {
                 let p = &r["params"];
-                let sys = BufSys { window: p["window"].as_u64().unwrap() as usize, dict: p["dict"].as_array().unwrap().iter().map(|x| x.as_u64().unwrap() as u8).collect(), max_len: p["max_len"].as_u64().unwrap() as usize };
+                let sys = BufSys { window: p["window"].as_u64().unwrap() as usize, dict: p["dict"].as_array().unwrap().iter().map(|x| x.as_u64().unwrap() as u8).collect(), max_len: p["max_len"].as_u64().unwrap() as usize, reduced: false };
                 let ops: Vec<DOp> = ops.iter().map(dop_from).collect();
                 xplore::replay(&sys, &ops).err()
             }
